@@ -394,3 +394,15 @@ def settings_reach_the_predicate_unchanged(ctx):
             ctx.check(wrong is None, '%s#%s' % (name, cell), '%s holds the parameter itself, or the default only where the parameter is None' % cell,
                       '%s: captured value %s = %s - %s (a legal setting such as 0 would be replaced)' % (
                           name, cell, T.show(wrong[1])[:60] if wrong else '', wrong[2] if wrong else ''), fac, stored[cell])
+
+
+@rule('C10.h', min_instances=1)
+def gradient_norm_is_the_documented_norm(ctx):
+    """GradientNormTolerance documents sum(abs(gradient)**norm)**(1/norm) <= tolerance and computes the left side with math.distance.Lnorm: Lnorm takes the absolute value BEFORE the power (reference shared with C18.f) - abs(g**p) is invalid for a fractional p and a negative component, and the function's own handler then silently answers with the infinity norm"""
+    from .c18_refs import REFS
+    from .. import siblings as SB
+    a = 'mystic.math.distance:Lnorm'
+    f = ctx.func(a)
+    got, want = SB.agree(f.node, REFS[a], strict_casts=True)
+    ctx.stats['terms_compared'] += len(got)
+    ctx.check(got == want, 'Lnorm', 'p=0: count of nonzeros; p=inf: max|w|; else (sum |w|**p)**(1/p)', 'Lnorm (behind GradientNormTolerance) differs from its definition: %s' % SB.diff(got, want)[:400], f, f.node)
